@@ -334,6 +334,16 @@ fn run_set<S: PS>(ctx: &Ctx) -> Acc {
     });
     let mut acc = Acc::merge_all(accs);
     adversarial_fixtures::<S>(ctx, &mut acc);
+    // (h') c~ values with extreme SampleInBall consumption, as a forged-valid degenerate-key signature cannot
+    // choose c~, these are plain differential cases (both sides must say false) plus an honest key
+    for (ct, nbytes) in sib_fixtures(ctx, S::SET) {
+        let mut g = Prng::derive(ctx.seed, "c02-sib", nbytes);
+        let z: Vec<Poly> = (0..p.l).map(|_| core::array::from_fn(|_| g.range(-100, 100))).collect();
+        let sig = r::sig_encode(p, &ct, &z, &vec![r::ZERO; p.k]);
+        let (hpk, _) = r::keygen_internal(p, &[9u8; 32]);
+        let _ = check_case::<S>(&mut acc, "h-sample-in-ball-extreme", &hpk, b"m", b"", Mode::Pure, &sig, true);
+        let _ = check_case::<S>(&mut acc, "h-sample-in-ball-extreme", &gen::degenerate_pk(p, &[1u8; 32]), b"m", b"", Mode::Sha512, &sig, true);
+    }
     acc
 }
 
